@@ -25,11 +25,11 @@ type Expr struct {
 	L, R *Expr
 }
 
-func N() *Expr                { return &Expr{Op: "N"} }
-func K(k int64) *Expr         { return &Expr{Op: "k", K: k} }
-func Add(a, b *Expr) *Expr    { return &Expr{Op: "+", L: a, R: b} }
-func Sub(a, b *Expr) *Expr    { return &Expr{Op: "-", L: a, R: b} }
-func Mul(a, b *Expr) *Expr    { return &Expr{Op: "*", L: a, R: b} }
+func N() *Expr                   { return &Expr{Op: "N"} }
+func K(k int64) *Expr            { return &Expr{Op: "k", K: k} }
+func Add(a, b *Expr) *Expr       { return &Expr{Op: "+", L: a, R: b} }
+func Sub(a, b *Expr) *Expr       { return &Expr{Op: "-", L: a, R: b} }
+func Mul(a, b *Expr) *Expr       { return &Expr{Op: "*", L: a, R: b} }
 func Div(a *Expr, k int64) *Expr { return &Expr{Op: "/", L: a, R: K(k)} }
 
 func (e *Expr) String() string {
@@ -267,8 +267,8 @@ func IsLenOf(pred func(ssa.Value) bool) func(ssa.Value) bool {
 }
 
 // Standard formulas.
-func FormulaNminusF() *Expr   { return Sub(N(), Div(Sub(N(), K(1)), 3)) }           // N - floor((N-1)/3)
-func FormulaLegacy() *Expr    { return Sub(N(), Div(Mul(N(), K(6)), 7)) }           // N - floor(6N/7)
-func FormulaCeil2N3() *Expr   { return Div(Add(Mul(K(2), N()), K(2)), 3) }          // ceil(2N/3)
-func FormulaCeilN3() *Expr    { return Div(Add(N(), K(2)), 3) }                     // ceil(N/3)
-func FormulaFloor2N3p1() *Expr { return Add(Div(Mul(K(2), N()), 3), K(1)) }         // floor(2N/3)+1
+func FormulaNminusF() *Expr    { return Sub(N(), Div(Sub(N(), K(1)), 3)) }  // N - floor((N-1)/3)
+func FormulaLegacy() *Expr     { return Sub(N(), Div(Mul(N(), K(6)), 7)) }  // N - floor(6N/7)
+func FormulaCeil2N3() *Expr    { return Div(Add(Mul(K(2), N()), K(2)), 3) } // ceil(2N/3)
+func FormulaCeilN3() *Expr     { return Div(Add(N(), K(2)), 3) }            // ceil(N/3)
+func FormulaFloor2N3p1() *Expr { return Add(Div(Mul(K(2), N()), 3), K(1)) } // floor(2N/3)+1
